@@ -94,7 +94,7 @@ pub fn word_text(sigma: &[&str], w: &[usize]) -> String {
 
 /// the bundled std library sources (read from the working tree at run time)
 pub fn std_files() -> Vec<(String, String)> {
-    let root = std::path::Path::new("/repo/crates/emmylua_code_analysis/resources/std");
+    let root = vcore::repo_root().join("crates/emmylua_code_analysis/resources/std");
     let mut out = Vec::new();
     fn walk(p: &std::path::Path, out: &mut Vec<(String, String)>) {
         let Ok(rd) = std::fs::read_dir(p) else { return };
@@ -110,6 +110,6 @@ pub fn std_files() -> Vec<(String, String)> {
             }
         }
     }
-    walk(root, &mut out);
+    walk(&root, &mut out);
     out
 }
